@@ -11,6 +11,7 @@ def parseOp (j : Json) : Except String Op := do
   | "push_mgr" => pure (.pushManager n)
   | "push_fn" => pure (.pushFunction n)
   | "push_bound" => pure (.pushBoundMethod n 0)
+  | "push_builtin_bound" => pure (.pushBuiltinBound n)
   | "callback" => pure (.callback n)
   | "enter_async_context" => pure (.enterAsyncContext n)
   | "push_async_exit_mgr" => pure (.pushAsyncExitManager n)
